@@ -61,18 +61,21 @@ theorem C06_methods_values {V R : Type} (numpy : Kernel V R) (hblind : UnitBlind
 example : ((Generated.methodRows.filter fun r => (defects r).isEmpty && !r.calls.isEmpty && !r.raised).length ≥ 10) = true := by
   decide +kernel
 
-/-- the finding, for every kernel: whatever `order` the caller passes to `x.copy(order=…)`, the kernel
-    call carries no `order` argument -/
-theorem copy_drops_order {V R : Type} (numpy : Kernel V R) (alt : String → PyVal V) (alter : R → R)
+/-- regression of the repaired finding `ndarray.copy|dropped:order`, for every kernel: whatever `order` the
+    caller passes to `x.copy(order=…)`, the kernel call is `ndarray.copy` and carries exactly that `order` -/
+theorem copy_forwards_order {V R : Type} (numpy : Kernel V R) (alt : String → PyVal V) (alter : R → R)
     (unitRule : Args V → String) (o : PyVal V) :
     run numpy alt alter unitRule
-        ⟨"ndarray.copy", "unyt_array#0", "np", false, [(true, "numpy.copy")], [("order", Fwd.dropped)], [], Post.id⟩
+        ⟨"ndarray.copy", "unyt_array#0", "bare-view", false, [(true, "ndarray.copy")], [("order", Fwd.same)], [], Post.id⟩
         [("order", o)]
-      = Outcome.value (unitRule [("order", o)]) (numpy "numpy.copy" []) := by
+      = Outcome.value (unitRule [("order", o)]) (numpy "ndarray.copy" (stripArgs [("order", o)])) := by
   rfl
 
+/-- every regenerated row of `copy` is the one `copy_forwards_order` speaks about (and there is one) -/
 theorem copy_row_is_regenerated :
-    (Generated.methodRows.any fun r => r.func == "ndarray.copy" && r.params == [("order", Fwd.dropped)]) = true := by
+    ((Generated.methodRows.filter fun r => r.func == "ndarray.copy").all fun r =>
+        r.params == [("order", Fwd.same)] && r.calls == [(true, "ndarray.copy")] && r.sig == "bare-view" && !r.raised)
+      && (Generated.methodRows.any fun r => r.func == "ndarray.copy") = true := by
   decide +kernel
 
 end Unyt.C06
